@@ -6,6 +6,7 @@ import (
 	"fmt"
 	"math/rand/v2"
 	"os"
+	"strconv"
 	"strings"
 	"time"
 
@@ -14,6 +15,7 @@ import (
 	ogenjson "github.com/ogen-go/ogen/json"
 	"github.com/ogen-go/ogen/jsonpointer"
 	"github.com/ogen-go/ogen/jsonschema"
+	"github.com/ogen-go/ogen/openapi/parser"
 
 	"verif/internal/bx"
 	"verif/internal/core"
@@ -38,6 +40,11 @@ type observation struct {
 	// (gen/reduce.go compareNum) took two responses that differ only in this bound for
 	// the same one: "folded" | "kept" | "err" | "na"
 	Red string `json:"red"`
+	// Doc: outcome of the same enum written in a JSON document that goes through the
+	// loader (ogen.Parse) and the OpenAPI parser: "dup" | "ok" | "err" | "na"; F64: both
+	// texts are numbers that round to the same float64
+	Doc string `json:"doc"`
+	F64 bool   `json:"f64"`
 }
 
 func equal(a, b string) (res string) {
@@ -110,15 +117,49 @@ func reduceOutcome(a, b string) (res string) {
 	return "kept"
 }
 
+// docEnumOutcome writes the enum into a document text and loads it the way cmd/ogen does.
+func docEnumOutcome(a, b string) (res string) {
+	defer func() {
+		if e := recover(); e != nil {
+			res = "panic"
+		}
+	}()
+	doc := `{"openapi":"3.0.3","info":{"title":"t","version":"1"},"paths":{},"components":{"schemas":{"E":{"enum":[` + a + `,` + b + `]}}}}`
+	spec, err := ogen.Parse([]byte(doc))
+	if err == nil {
+		_, err = parser.Parse(spec, parser.Settings{})
+	}
+	switch {
+	case err == nil:
+		return "ok"
+	case strings.Contains(err.Error(), "duplicate enum value"):
+		return "dup"
+	}
+	return "err"
+}
+
+func sameFloat64(a, b string) bool {
+	x, e1 := strconv.ParseFloat(a, 64)
+	y, e2 := strconv.ParseFloat(b, 64)
+	// ParseFloat reports a range error together with +-Inf / 0: the rounding still counts
+	_ = e1
+	_ = e2
+	return x == y
+}
+
 var nullSp = stdjson.RawMessage(`{"t":"lit","v":"null"}`)
 
 func observe(sa, sb stdjson.RawMessage, ta, tb string, withEnum bool) observation {
-	o := observation{Sa: sa, Sb: sb, Ta: bx.Ints(ta), Tb: bx.Ints(tb), Enum: "na", Red: "na"}
+	o := observation{Sa: sa, Sb: sb, Ta: bx.Ints(ta), Tb: bx.Ints(tb), Enum: "na", Red: "na", Doc: "na"}
 	o.AB, o.BA, o.AA = equal(ta, tb), equal(tb, ta), equal(ta, ta)
 	if withEnum {
 		o.Enum = enumOutcome(ta, tb)
 		if isNumberText(ta) && isNumberText(tb) {
 			o.Red = reduceOutcome(ta, tb)
+			o.F64 = sameFloat64(ta, tb)
+			// numbers only: what the loader does to other texts (line separators inside
+			// strings, member order) is the business of C17
+			o.Doc = docEnumOutcome(ta, tb)
 		}
 	}
 	return o
@@ -601,7 +642,7 @@ func Check(r *core.Run) error {
 	}
 	for _, v := range vs {
 		o := all[v.Index]
-		what := fmt.Sprintf("json.Equal(%q, %q) = %s, swapped = %s, reflexive = %s, enum = %s, default-response reduction = %s", bx.Str(o.Ta), bx.Str(o.Tb), o.AB, o.BA, o.AA, o.Enum, o.Red)
+		what := fmt.Sprintf("json.Equal(%q, %q) = %s, swapped = %s, reflexive = %s, enum = %s, default-response reduction = %s, enum in a loaded document = %s", bx.Str(o.Ta), bx.Str(o.Tb), o.AB, o.BA, o.AA, o.Enum, o.Red, o.Doc)
 		switch {
 		case v.Kind == "drift":
 			r.Drift(what)
